@@ -1,0 +1,150 @@
+//! Probe for the external verification harness (compiled only with the `verif-hooks` feature):
+//! drives a `FixedBitfield` and a `DynamicBitfield` by textual commands and reports what they answer,
+//! so that a model of the two can be run against them operation by operation.
+use super::dynamic::DynamicBitfield;
+use super::fixed::FixedBitfield;
+use crate::common::{StoreInfo, StoreInfoType};
+use crate::Store;
+use futures::future::Either;
+
+/// One fixed page and one dynamic bitfield, driven by [`BitfieldProbe::step`].
+#[derive(Debug)]
+pub struct BitfieldProbe {
+    fixed: FixedBitfield,
+    dynamic: DynamicBitfield,
+}
+
+fn words_of(bytes: &[u8]) -> String {
+    let mut out: Vec<String> = vec![];
+    for (i, w) in bytes.chunks(4).enumerate() {
+        let mut v: u32 = 0;
+        for (k, b) in w.iter().enumerate() {
+            v |= (*b as u32) << (8 * k);
+        }
+        if v != 0 {
+            out.push(format!("{}={}", i, v));
+        }
+    }
+    format!("len={} {}", bytes.len(), out.join(","))
+}
+
+fn opt<T: std::fmt::Display>(v: Option<T>) -> String {
+    match v {
+        Some(v) => format!("{}", v),
+        None => "none".to_string(),
+    }
+}
+
+fn unhex(s: &str) -> Vec<u8> {
+    if s == "-" {
+        return vec![];
+    }
+    (0..s.len() / 2)
+        .map(|i| u8::from_str_radix(&s[2 * i..2 * i + 2], 16).unwrap_or(0))
+        .collect()
+}
+
+fn open_dynamic(store_length: u64, data: &[u8]) -> (DynamicBitfield, String) {
+    // the instruction protocol of DynamicBitfield::open: size first, then the content it asks for
+    let mut trace: Vec<String> = vec![];
+    let mut info: Option<StoreInfo> = None;
+    for _ in 0..4 {
+        match DynamicBitfield::open(info.take()) {
+            Either::Left(instruction) => {
+                if instruction.info_type == StoreInfoType::Size {
+                    trace.push("size".to_string());
+                    info = Some(StoreInfo::new_size(Store::Bitfield, 0, store_length));
+                } else {
+                    let index = instruction.index as usize;
+                    let length = instruction.length.unwrap_or(0) as usize;
+                    trace.push(format!("read:{}:{}", index, length));
+                    let end = std::cmp::min(index + length, data.len());
+                    let start = std::cmp::min(index, end);
+                    info = Some(StoreInfo::new_content(
+                        Store::Bitfield,
+                        instruction.index,
+                        &data[start..end],
+                    ));
+                }
+            }
+            Either::Right(bitfield) => return (bitfield, trace.join(",")),
+        }
+    }
+    panic!("DynamicBitfield::open did not finish");
+}
+
+impl BitfieldProbe {
+    /// A fresh page and an empty dynamic bitfield.
+    pub fn new() -> Self {
+        let (dynamic, _) = open_dynamic(0, &[]);
+        Self {
+            fixed: FixedBitfield::new(),
+            dynamic,
+        }
+    }
+
+    /// Executes one command; may panic exactly where the probed code panics.
+    pub fn step(&mut self, cmd: &str) -> String {
+        let p: Vec<&str> = cmd.split_whitespace().collect();
+        let n = |i: usize| -> u64 { p.get(i).and_then(|s| s.parse::<u64>().ok()).unwrap_or(0) };
+        let b = |i: usize| -> bool { n(i) != 0 };
+        match p.first().copied().unwrap_or("") {
+            "fnew" => {
+                self.fixed = FixedBitfield::new();
+                "ok".to_string()
+            }
+            "ffrom" => {
+                let data = unhex(p.get(2).copied().unwrap_or("-"));
+                self.fixed = FixedBitfield::from_data(n(1) as usize, &data);
+                "ok".to_string()
+            }
+            "fbytes" => format!(
+                "dirty={} {}",
+                self.fixed.dirty as u8,
+                words_of(&self.fixed.to_bytes())
+            ),
+            "fget" => format!("{}", self.fixed.get(n(1) as u32) as u8),
+            "fset" => format!("{}", self.fixed.set(n(1) as u32, b(2)) as u8),
+            "frange" => format!(
+                "{}",
+                self.fixed.set_range(n(1) as u32, n(2) as u32, b(3)) as u8
+            ),
+            "findex" => opt(self.fixed.index_of(b(1), n(2) as u32)),
+            "flast" => opt(self.fixed.last_index_of(b(1), n(2) as u32)),
+            "dopen" => {
+                let data = unhex(p.get(2).copied().unwrap_or("-"));
+                let (dynamic, trace) = open_dynamic(n(1), &data);
+                self.dynamic = dynamic;
+                trace
+            }
+            "dflush" => {
+                let infos = self.dynamic.flush();
+                let parts: Vec<String> = infos
+                    .iter()
+                    .map(|i| {
+                        format!(
+                            "{}:{}",
+                            i.index,
+                            words_of(i.data.as_ref().map(|d| &d[..]).unwrap_or(&[]))
+                        )
+                    })
+                    .collect();
+                format!("n={} {}", parts.len(), parts.join(";"))
+            }
+            "dget" => format!("{}", self.dynamic.get(n(1)) as u8),
+            "drange" => {
+                self.dynamic.set_range(n(1), n(2), b(3));
+                "ok".to_string()
+            }
+            "dindex" => opt(self.dynamic.index_of(b(1), n(2))),
+            "dlast" => opt(self.dynamic.last_index_of(b(1), n(2))),
+            _ => "unknown".to_string(),
+        }
+    }
+}
+
+impl Default for BitfieldProbe {
+    fn default() -> Self {
+        Self::new()
+    }
+}
